@@ -18,8 +18,8 @@ from .. import guards as G
 from .. import ownership as O
 from ..model import AnalysisError, Unknown, dotted, src
 
-TECHNIQUE = "interprocedural acquire/release (typestate) analysis of register activation with ownership transfer and correlated-guard idioms; abstract interpretation of small functions over an enumerated finite domain by the checker's own AST interpreter (static analysis)"
-ENGINES = ["model", "flow", "circuit"]
+TECHNIQUE = "abstract execution of whole objects of the repository by the checker's AST interpreter: every operation kind completed more often than there are registers on one connection, compiled by the repository's builder and executed by its controller (C14.X); interprocedural acquire/release (typestate) analysis of register activation with ownership transfer and correlated-guard idioms; abstract interpretation of small functions over an enumerated finite domain by the checker's own AST interpreter (static analysis)"
+ENGINES = ["model", "flow", "circuit", "session"]
 EXPLANATION = (
     "Over sdk/builder.py, sdk/futures.py, sdk/connection.py and sdk/epr_socket.py (closures as units of their own): acquire sites are "
     "get_inactive_register(activate=True), add_active_register, and calls whose bottom-up summary returns an owned register "
@@ -29,14 +29,17 @@ EXPLANATION = (
     "releases it). Paths are explored with facts for the repo's correlated guards (same flag, `v is not None`, isinstance on the "
     "argument); a release under a constant-false flag is no release. A2: between a non-activating get_inactive_register() and its "
     "protecting use no call that can reach an allocation. A3: the pool enumerates 2**REG_INDEX_BITS registers of bank R."
+    ' C14.X (abstract execution, nqsa/sdkprog.py): 21 operation kinds x 40 completions (20 for entanglement) through the repository\'s connection, builder and controller.'
     ' C14.A4: no use of a register after its release. C14.Z: no truthiness test on an int-typed value in the memory manager and futures.'
     ' C14.P: MemoryManager.reset() reaches every reset_* method and each restores its pool field to the state __init__ gives it. C14.K: nothing remembered across calls depends on an argument that is not part of its key.'
     ' C14.A3 executes get_inactive_register abstractly for six active sets x activate on / off (first inactive of R0..R15, exhaustion raises, the active set changes exactly when asked).'
 )
 LEVEL_TEXT = (
-    "Static analysis, full for the leak clause: every acquire site (floor 25) is proven released or transferred on all normal "
-    "paths, so the number of live registers depends only on open operations. The second clause (temporaries never overwrite a live "
-    "register of an enclosing operation) is decided only as A2 (unprotected registers are protected before any allocation)."
+    "Static analysis with abstract execution: C14.X completes each operation kind (conditions in every form, counted loops, loop_until, foreach, "
+    "enumerate, add with and without modulus on both kinds of future, measurement, nested combinations, entanglement requests with and without post "
+    "routines) 40 times on one connection with periodic flushes - the repository's builder keeps compiling, its controller executes every subroutine, "
+    "the final arrays equal direct execution (second clause: a clobbered live register shows there). The ownership analysis proves every acquire site "
+    "outside the six units the runs exercise released or transferred on all normal paths. Bound: lengths up to 120, nesting depth two in the runs."
 )
 LEVEL_NOTE = "exceptional paths abort compilation and are not modelled; name-based call resolution where the method name is unique in the analysed modules; user-visible handles (new_register) are transfers to the user"
 ASSUMPTIONS = [LEVEL_NOTE]
